@@ -55,7 +55,9 @@ pub fn run(a: &Args) {
             std::process::exit(2);
         }
     };
-    for c in load_cases(a, 0) {
+    let cases = load_cases(a, 0);
+    st.counters.insert("distinct_rr_types".into(), crate::packet::distinct_types(&cases));
+    for c in cases {
         let p = &c["pkt"];
         let n: usize = ["qd", "an", "ns", "ar"].iter().map(|k| p[*k].as_array().unwrap().len()).sum();
         go(&mut out, &mut st, &format!("gen-packet entries={}", if n < 2 { "0-1" } else { "n" }), p, n >= 2);
